@@ -712,6 +712,8 @@ func (self *Value) findDeleteChild(path Path) (Node, int) {
 		}
 
 		messageStart := it.p.Read
+		// field offsets count from the node's first byte, i.e. they include the length prefix of a non-root message
+		start = messageStart + valueLen
 		id := path.id()
 		for it.p.Read < messageStart+valueLen {
 			fieldStart := it.p.Read
